@@ -56,7 +56,7 @@ Definition pong_wait : Z := 60 * ns_per_s.
 Definition ping_period : Z := (pong_wait * 9) / 10.
 Definition slack : Z := pong_wait - ping_period.          (* 6 s *)
 
-Inductive reason := Expiry | ReadTimeout | WriteTimeout | ClientClose | NetLoss | Evicted | Denied.
+Inductive reason := Expiry | ReadTimeout | WriteTimeout | PongRejected | ClientClose | NetLoss | Evicted | Denied.
 
 Inductive cstatus := Open | Closed (why : reason) (at_ns : Z).
 
@@ -67,7 +67,10 @@ Record conn := mkconn { fire : Z; deadline : Z; next_ping : Z; wdeadline : optio
 
 Inductive ev :=
 | EPing          (* the ticker fires, writePump sends a ping *)
-| EPong          (* a pong arrives: the read deadline is renewed *)
+| EPong          (* a pong arrives in answer to the relay's ping (whatever its payload): the read deadline is renewed *)
+| EPongUnsolicited (* a pong nobody asked for (RFC 6455 5.5.3 one-way heartbeat), any payload: the pong
+                      handler renews the read deadline just the same *)
+| EClientPing    (* the CLIENT pings: gorilla's default handler answers with a pong, nothing else changes *)
 | EDataIn        (* a data message from the client (does NOT renew the deadline) *)
 | EDataOut       (* a message fanned out to this client *)
 | EStall         (* the client stops reading *)
@@ -98,8 +101,11 @@ Definition write_fails (c : conn) (tau : Z) : bool :=
   match wdeadline c with Some d => d <? tau | None => false end.
 
 (* [own] = the ping branch sets its own write deadline before writing (true in the code as it is).
-   The variant own = false sends the ping under the deadline the last data write left behind. *)
-Definition apply_ev_v (own : bool) (c : conn) (e : ev) (tau : Z) : conn :=
+   The variant own = false sends the ping under the deadline the last data write left behind.
+   [strict] = the pong handler rejects a pong that does not echo the relay's ping (false in the code
+   as it is: the handler accepts every pong). In the variant strict = true the handler's error ends
+   ReadMessage, readPump returns and the relay closes the connection. *)
+Definition apply_ev_v (own strict : bool) (c : conn) (e : ev) (tau : Z) : conn :=
   match status c with
   | Closed _ _ => c
   | Open =>
@@ -109,6 +115,10 @@ Definition apply_ev_v (own : bool) (c : conn) (e : ev) (tau : Z) : conn :=
           else if write_fails c tau then close_with c WriteTimeout tau   (* writePump returns, socket closed *)
           else mkconn (fire c) (deadline c) (next_ping c + ping_period) (wdeadline c) Open
       | EPong => mkconn (fire c) (tau + pong_wait) (next_ping c) (wdeadline c) Open
+      | EPongUnsolicited =>
+          if strict then close_with c PongRejected tau
+          else mkconn (fire c) (tau + pong_wait) (next_ping c) (wdeadline c) Open
+      | EClientPing => c
       | EDataOut => mkconn (fire c) (deadline c) (next_ping c) (Some (tau + write_wait)) Open
       | EDataIn | EStall | EIgnoreClose => c
       | EClientClose => close_with c ClientClose tau
@@ -118,11 +128,12 @@ Definition apply_ev_v (own : bool) (c : conn) (e : ev) (tau : Z) : conn :=
       end
   end.
 
-Definition apply_ev (c : conn) (e : ev) (tau : Z) : conn := apply_ev_v true c e tau.
+Definition apply_ev (c : conn) (e : ev) (tau : Z) : conn := apply_ev_v true false c e tau.
 
-Definition step_v (own : bool) (c : conn) (x : ev * Z) : conn := apply_ev_v own (advance c (snd x)) (fst x) (snd x).
-Definition run_v (own : bool) (c : conn) (evs : list (ev * Z)) (horizon : Z) : conn :=
-  advance (fold_left (step_v own) evs c) horizon.
+Definition step_v (own strict : bool) (c : conn) (x : ev * Z) : conn :=
+  apply_ev_v own strict (advance c (snd x)) (fst x) (snd x).
+Definition run_v (own strict : bool) (c : conn) (evs : list (ev * Z)) (horizon : Z) : conn :=
+  advance (fold_left (step_v own strict) evs c) horizon.
 
 Definition step (c : conn) (x : ev * Z) : conn := apply_ev (advance c (snd x)) (fst x) (snd x).
 
@@ -147,6 +158,9 @@ Fixpoint timely (np : Z) (out : option Z) (evs : list (ev * Z)) : bool :=
       | EPong, Some p => (p <=? tau) && (tau <? p + slack) && timely np None r
       | EPong, None => (np - ping_period <=? tau) && (tau <=? np) && timely np None r
           (* unsolicited pong, not earlier than the previous ping: renews too *)
+      | EPongUnsolicited, None => (np - ping_period <=? tau) && (tau <=? np) && timely np None r
+      | EPongUnsolicited, Some p => (p <=? tau) && (tau <? p + slack) && timely np out r
+          (* a heartbeat pong does not count as the answer to the outstanding ping *)
       | _, None => (tau <=? np) && timely np None r
       | _, Some p => (tau <? p + slack) && timely np out r
       end
